@@ -59,6 +59,11 @@ def main(tier):
     for ev, m in models.items():
         # a. Eof gate
         ok, detail = m.eof_gate()
+        ok2, detail2 = m.mir_eof_gate()
+        if not ok and ok2:
+            run.note("%s: Eof gate not in one of the enumerated source forms (%s) but established by the path rule on MIR" % (ev, detail[:120]))
+        detail = "source form: %s | MIR path rule: %s" % (detail, detail2)
+        ok = ok or ok2
         run.ob(ok, "eof-gate|%s" % ev, "C03-a parse() returns Ok only when the current token is Eof", where(m, "::parser::Parser::parse"), detail,
                sample={"evaluator": ev, "eof_gate": detail})
         # b. error discipline
